@@ -60,6 +60,16 @@ def run(ctx, rep):
         rep.check(first is not None and first[0] == 'const' and not first[1].startswith('-'), 'R1', short + '/subcommand', where, 'first word is the constant sub-command', 'first argv word is %s' % (first,))
         used = set()
         seen_image = False
+        # `.arg("--x").arg(value)` and `.args(["--x", value])` are the same argv: merge consecutive contributions
+        # made under identical guards / in the same loop
+        merged = []
+        for it in items:
+            if merged and merged[-1].conds == it.conds and merged[-1].loop == it.loop and it.elems and it.elems[0][0] == 'field' \
+                    and merged[-1].elems and merged[-1].elems[-1][0] == 'const' and merged[-1].elems[-1][1].startswith('--'):
+                merged[-1].elems = merged[-1].elems + it.elems
+            else:
+                merged.append(it)
+        items = merged
         for idx, it in enumerate(items):
             for g, _ in it.conds:
                 used.add(g)
